@@ -27,16 +27,28 @@ func genPES(r *gen.Rand, sid int, ptsdts byte) ref.PES {
 	if r.Chance(4) {
 		h.PacketLen = uint16(r.PickInt([]int{0, 1, 0xff, 0x100, 0xffff}))
 	}
-	switch r.Intn(5) {
-	case 0:
-	case 1:
-		h.Extra = bytes.Repeat([]byte{0xff}, 1+r.Intn(12)) // stuffing
+	// the optional fields the flags announce, each with its ISO size, followed by 0xFF stuffing: the header is
+	// consistent in itself (PES_header_data_length covers exactly what is announced, plus stuffing)
+	h.Extra = nil
+	for _, f := range []struct {
+		bit  byte
+		size int
+	}{{0x20, 6}, {0x10, 3}, {0x08, 1}, {0x04, 1}, {0x02, 2}} { // ESCR, ES_rate, DSM_trick_mode, additional_copy_info, previous_PES_packet_CRC
+		if h.Flags2Low6&f.bit != 0 {
+			h.Extra = append(h.Extra, r.Bytes(f.size)...)
+		}
+	}
+	if h.Flags2Low6&0x01 != 0 {
+		h.Extra = append(h.Extra, 0x0e) // PES_extension with none of its own optional fields
+	}
+	switch r.Intn(4) {
+	case 0: // exactly the announced fields: the header ends with the last of them
 	default:
-		h.Extra = r.Bytes(r.Intn(20))
+		h.Extra = append(h.Extra, bytes.Repeat([]byte{0xff}, r.Intn(12))...)
 	}
 	if r.Chance(25) { // the largest header_data_length
-		need := map[byte]int{0: 0, 2: 5, 3: 10}[h.PTSDTS]
-		h.Extra = r.Bytes(255 - need)
+		need := map[byte]int{0: 0, 2: 5, 3: 10}[h.PTSDTS] + len(h.Extra)
+		h.Extra = append(h.Extra, bytes.Repeat([]byte{0xff}, 255-need)...)
 	}
 	h.Payload = r.Bytes(r.Intn(24))
 	if r.Chance(3) {
